@@ -583,8 +583,7 @@ def main():
                              "case": cases[bad[label][0]][:3000], "n_mismatches": len(bad[label])}, found=False)
     r.assumptions = [
         "numbers are modelled as DAS tokens: '%.6g' formatting and ast.literal_eval are outside the Gallina model (checked by the oracle)",
-        "placement (add_attributes) is an executable model compared with the implementation; its universal theorem is stated in DESIGN.md as future work"
-        if True else "",
+        "C08_placement covers served DAS without NC_GLOBAL / DODS_EXTRA containers; flattening and foreign layouts are compared only",
         "attribute names are identifiers (names needing quoting come back in quoted form, like variable names)",
         "ASCII texts; Grid members' own attributes are not served by the DAS (excluded by the property)",
     ]
